@@ -43,7 +43,11 @@ def timed_source(rng):
                 parts.append(rng.choice(["l4 c&d e", "Slur(1) c&e g", "BR(12) c", "BR(%d) d&f" % rng.randint(1, 24), "PB(%d) c" % rng.randint(-8000, 8000), "p%d d" % rng.randint(0, 127),
                                          "FineTune(%d) c" % rng.randint(0, 127), "VibratoRate(64) VibratoDepth(64) e", "RPN(0,1,%d) c" % rng.randint(0, 127), "NRPN(1,8,64) c",
                                          "ResetGM c", "MasterVolume(100) d", "SysEx$=f0,7e,7f,9,1,f7; e", "c&d&e f&f g",
-                                         "SysEx$=41,10,42,12,40,00,7F,00,41,F7; c", "SysEx$=41,10,42,12,{40,00,7F,00},F7; d", "SysEx$=f0,41,10,42,12,40,00,7F,00,41; e", "SysEx$=7e,7f,9,1; c"]) + " " + rng.choice(["c", "TIME(3:1:0) d", "r e"]))
+                                         "SysEx$=41,10,42,12,40,00,7F,00,41,F7; c", "SysEx$=41,10,42,12,{40,00,7F,00},F7; d", "SysEx$=f0,41,10,42,12,40,00,7F,00,41; e", "SysEx$=7e,7f,9,1; c",
+                                         # an F7 among the data bytes is data; messages of 128 bytes and more have a length field of two bytes
+                                         "SysEx$=f0,41,f7,10,f7; c", "SysEx$=f0,f7,f7; d", "SysEx$=f0,41,10,f7,42,f7,00,f7; e",
+                                         "SysEx$=f0," + ",".join("%02x" % rng.randint(0, 127) for _ in range(rng.choice([125, 126, 127, 128, 200, 300]))) + ",f7; c",
+                                         "SysEx$=f0," + ",".join(rng.choice(["f7", "00", "41", "7f"]) for _ in range(rng.randint(1, 9))) + ",f7; d"]) + " " + rng.choice(["c", "TIME(3:1:0) d", "r e"]))
             elif r < 0.75:
                 parts.append("l%%%d q100 %s" % (rng.choice([127, 126, 128, 255, 16383, 16384, 2097151, 2097152, rng.randint(1, 300)]), rng.choice(["c d", "e r f", "g"])))
             else:
